@@ -430,7 +430,20 @@ def gen_matching_case(r: random.Random, max_n: int = 24, force_2d: Optional[bool
                 x, y, z, yaw = r.uniform(-spread, spread), r.uniform(-spread, spread), r.uniform(-1, 1), O.rand_yaw(r)
                 w, l, h = r.uniform(0.5, 2.5), r.uniform(0.5, 6), r.uniform(1, 3)
                 lab = r.choice(labs + ["unknown"])
-            ests_e.append(O.obj3d(x, y, z, yaw, w, l, h, lab, score=round(r.random(), 3), uuid=f"e{k}", negate_q=r.random() < 0.3))
+            twin_of = None
+            if ests_e and r.random() < 0.12:
+                # same pose and label as an earlier estimate (equal under the library's object equality) but another
+                # size / confidence: only identity distinguishes the two
+                twin_of = ests_e[r.randrange(len(ests_e))]
+                b0 = O.box_of(twin_of)
+                x, y, z, yaw = b0[:4]
+                lab = O.lab_of(twin_of)
+                w, l, h = b0[4] * r.uniform(0.5, 1.6), b0[5] * r.uniform(0.5, 1.6), b0[6] * r.uniform(0.7, 1.3)
+            eo = O.obj3d(x, y, z, yaw, w, l, h, lab, score=round(r.random(), 3), uuid=f"e{k}", negate_q=r.random() < 0.3)
+            if twin_of is not None:
+                eo.state.position = twin_of.state.position
+                eo.state.orientation = twin_of.state.orientation
+            ests_e.append(eo)
 
         def render(o):
             if frame_kind == "ego":
